@@ -15,7 +15,7 @@ static size_t LIM;
 
 /* ----------------------------------------------------- variation builder */
 static float f_from_bits(uint32_t b) { float f; memcpy(&f, &b, 4); return f; }
-static uint64_t g_built_variants[16];
+static __thread uint64_t g_built_variants[16];
 
 cbor_item_t* ser_build_variant(const rnode* n, struct vh_rng* r);
 #define build_v ser_build_variant
@@ -95,7 +95,7 @@ cbor_item_t* ser_build_variant(const rnode* n, struct vh_rng* r) {
         g_built_variants[3]++;
         it = text ? cbor_new_definite_string() : cbor_new_definite_bytestring();
         if (!it) return NULL;
-        unsigned char* h = ta_malloc(n->len);
+        unsigned char* h = _cbor_malloc(n->len); /* the configured allocator, whichever monitor is installed */
         if (!h) { cbor_decref(&it); return NULL; }
         if (n->len) memcpy(h, n->bytes, n->len);
         if (text) cbor_string_set_handle(it, h, n->len); else cbor_bytestring_set_handle(it, h, n->len);
